@@ -163,6 +163,7 @@ def run_program(world, prog):
     from decimalfp import ROUNDING
     Quantity = world.Quantity
     regs = {}
+    mconv = [None]
     pid = prog['id']
     events = [{'op': 'Reset', 'id': pid}]
     decimalfp.set_dflt_rounding_mode(ROUNDING.ROUND_HALF_EVEN)
@@ -180,6 +181,19 @@ def run_program(world, prog):
             try:
                 if o == 'SetMode':
                     decimalfp.set_dflt_rounding_mode(ROUNDING[op['m']])
+                    events.append(ev)
+                    continue
+                if o == 'SetConv':
+                    from quantity.money import Money, MoneyConverter
+                    if op['on'] and mconv[0] is None:
+                        c = MoneyConverter(world.units['Z2'])
+                        c.update(None, [(world.units['Z3'], mk_amount([5, 4], 'dec'), 1),
+                                        (world.units['Z0'], mk_amount([5, 2], 'dec'), 1)])
+                        Money.register_converter(c)
+                        mconv[0] = c
+                    elif not op['on'] and mconv[0] is not None:
+                        Money.remove_converter(mconv[0])
+                        mconv[0] = None
                     events.append(ev)
                     continue
                 if o == 'Lit':
@@ -284,4 +298,10 @@ def run_program(world, prog):
             events.append(ev)
     finally:
         decimalfp.set_dflt_rounding_mode(ROUNDING.ROUND_HALF_EVEN)
+        if mconv[0] is not None:
+            from quantity.money import Money
+            try:
+                Money.remove_converter(mconv[0])
+            except Exception:
+                pass
     return events
